@@ -15,6 +15,7 @@ import numpy as np
 from .. import filtgen, gen, monitor
 from ..common import rng_for, split
 
+OPTIMIZED_SHARDS = 1  # shards run once more in an interpreter started with -O (vf/run.py)
 LEVEL = "exploration"
 TECHNIQUE = "runtime monitors on bank constructors and responses against an independent layout oracle (own scale formulas, per-bin triangles, fitted peak / 3 dB / ERB / L2 norm)"
 RULE = (
